@@ -42,7 +42,7 @@ fn verdict_dec(be: &str, d: &pdlv_core::model::Desc, ty: &str, r: &RDec) -> (Str
                 (format!("improper-error:{class}"), None)
             }
         }
-        RDec::Crash(m) => (format!("crash:{}", m.chars().take(60).collect::<String>()), None),
+        RDec::Crash(m) => (if crash_kind(m) == "crash" { format!("crash:{}", m.chars().take(60).collect::<String>()) } else { crash_kind(m) }, None),
     }
 }
 
